@@ -572,8 +572,11 @@ impl Lexer<'_> {
                         }
                     }
                 }
-                LexerMode::StringExpr { .. } => {
-                    // This may happen if we have unbalanced `"` or `'` as the last character
+                LexerMode::StringExpr { allow_stat } => {
+                    // This may happen if we have unbalanced `"` or `'` as the last character.
+                    // The handler pops the mode itself, so put the mode back first,
+                    // otherwise the mode below would be skipped
+                    self.push_mode(LexerMode::StringExpr { allow_stat });
                     self.handle_unterminated_str_expr(Payload::None);
                 }
                 LexerMode::MacroNameExpr(_, err) => {
